@@ -7,7 +7,7 @@
                     transitionTasks / configureTasks  (commands go to the tasks handed in by the environment)
    Definitions only (executable, total); lemmas are in proofs/Ownership_proofs.v.
    Shared by C04 and C06; the environment level (creation, teardown, API wrappers) is Teardown.v. *)
-From Verif Require Import Common Gen_UtsWrites.
+From Verif Require Import Common Gen_UtsWrites Gen_Claimable.
 Open Scope N_scope.
 
 (* task state machine states as reported by the executors *)
@@ -32,7 +32,11 @@ Record task := mkTask {
   t_owner : option N;
   t_active : bool;
   t_state : N;
-  t_idok : bool      (* agent and executor id still set (HandleExecutorFailed / HandleAgentFailed blank them) *)
+  t_idok : bool;     (* agent and executor id still set (HandleExecutorFailed / HandleAgentFailed blank them) *)
+ t_kill : N;        (* oracle: 0 the master takes KILL calls for this task; 1 it refuses them (the call returns
+                        an error); 2 it refuses them and KillTasks still has an acknowledgement registered
+                        for the task from a refused attempt, so that KillTasks passes it over *)
+  t_ch : N           (* task class + host it runs on, as one code; 0 = a class no other role loads *)
 }.
 
 Definition roster := list task.
@@ -46,18 +50,19 @@ Definition owner_is (e : N) (t : task) : bool :=
   match t_owner t with Some o => N.eqb o e | None => false end.
 
 Definition set_owner (o : option N) (t : task) : task :=
-  mkTask (t_id t) o (t_active t) (t_state t) (t_idok t).
+  mkTask (t_id t) o (t_active t) (t_state t) (t_idok t) (t_kill t) (t_ch t).
 Definition set_state (s : N) (t : task) : task :=
-  mkTask (t_id t) (t_owner t) (t_active t) s (t_idok t).
+  mkTask (t_id t) (t_owner t) (t_active t) s (t_idok t) (t_kill t) (t_ch t).
 Definition set_dead (t : task) : task :=
-  mkTask (t_id t) (t_owner t) false (if is_locked t then TS_ERROR else t_state t) (t_idok t).
+  mkTask (t_id t) (t_owner t) false (if is_locked t then TS_ERROR else t_state t) (t_idok t) (t_kill t) (t_ch t).
 (* HandleExecutorFailed / HandleAgentFailed: id blanked, state ERROR, status INACTIVE, parent kept *)
 Definition set_failed (t : task) : task :=
-  mkTask (t_id t) (t_owner t) false TS_ERROR false.
+  mkTask (t_id t) (t_owner t) false TS_ERROR false (t_kill t) (t_ch t).
 
 Definition task_eqb (a b : task) : bool :=
   tid_eqb (t_id a) (t_id b) && option_eqb N.eqb (t_owner a) (t_owner b) &&
   Bool.eqb (t_active a) (t_active b) && N.eqb (t_state a) (t_state b) && Bool.eqb (t_idok a) (t_idok b).
+(* t_kill is an oracle / a registration inside the task manager: not observable, not compared *)
 
 Definition find_task (id : tid) (r : roster) : option task :=
   find (fun t => tid_eqb (t_id t) id) r.
@@ -78,29 +83,61 @@ Fixpoint release (e : N) (ids : list tid) (r : roster) : roster * N :=
       else (t :: r'', n)
   end.
 
-(* ---- KillTasks(ids): the tasks of the roster that are unlocked and listed are removed from the
-   roster and a KILL call goes out for each of them (for the ACTIVE ones with an acknowledgement
-   awaited, for the others — possibly still staging — best effort).  Result: roster, KILLed ids. *)
+(* ---- doKillTasks: every selected task is taken out of the roster and sent KILL (the ACTIVE ones with an
+   acknowledgement awaited, the others - possibly still staging - best effort).  A KILL call that the master
+   refuses for an ACTIVE task puts THAT task back into the roster and makes the request report an error; it
+   changes nothing for the other tasks of the request. *)
+Definition kill_refused (t : task) : bool := t_active t && negb (N.eqb (t_kill t) 0).
+Definition set_kill (k : N) (t : task) : task :=
+  mkTask (t_id t) (t_owner t) (t_active t) (t_state t) (t_idok t) k (t_ch t).
+
+(* ---- KillTasks(ids): selects the listed tasks that are unlocked and have no kill acknowledgement
+   pending; an acknowledgement is registered for every ACTIVE selected task and consumed only when the KILL
+   call went through.  Result: roster, KILLed ids. *)
+Definition kill_selected (ids : list tid) (t : task) : bool :=
+  mem_tid (t_id t) ids && negb (is_locked t) && negb (N.eqb (t_kill t) 2).
 Fixpoint kill_tasks (ids : list tid) (r : roster) : roster * list tid :=
   match r with
   | [] => ([], [])
   | t :: r' =>
       let '(r'', k) := kill_tasks ids r' in
-      if mem_tid (t_id t) ids && negb (is_locked t)
-      then (r'', t_id t :: k)
+      if kill_selected ids t
+      then if kill_refused t then (set_kill 2 t :: r'', k) else (r'', t_id t :: k)
       else (t :: r'', k)
   end.
+Definition kill_tasks_err (ids : list tid) (r : roster) : bool :=
+  existsb (fun t => kill_selected ids t && kill_refused t) r.
 
-(* ---- Cleanup(): the same for every unlocked task of the roster. *)
+(* ---- Cleanup(): doKillTasks for every unlocked task of the roster (no acknowledgements involved). *)
 Fixpoint cleanup (r : roster) : roster * list tid :=
   match r with
   | [] => ([], [])
   | t :: r' =>
       let '(r'', k) := cleanup r' in
       if negb (is_locked t)
-      then (r'', t_id t :: k)
+      then if kill_refused t then (t :: r'', k) else (r'', t_id t :: k)
       else (t :: r'', k)
   end.
+Definition cleanup_err (r : roster) : bool :=
+  existsb (fun t => negb (is_locked t) && kill_refused t) r.
+
+(* ---- task.go:IsClaimable, as the truth table read from the source on every run (gen/Gen_Claimable.v) *)
+Definition claimable (t : task) : bool :=
+  existsb (fun p => Bool.eqb (fst (fst (fst p))) (is_locked t) && Bool.eqb (snd (fst (fst p))) (t_active t) &&
+                    N.eqb (snd (fst p)) (if N.leb (t_state t) 3 then t_state t else 9) && snd p)
+          claimable_table.
+
+(* acquireTasks with reuseUnlockedTasks: the first claimable task of the roster that runs the wanted class
+   on the wanted host *)
+Fixpoint first_claimable (ch : N) (r : roster) : option tid :=
+  match r with
+  | [] => None
+  | t :: r' => if claimable t && N.eqb (t_ch t) ch then Some (t_id t) else first_claimable ch r'
+  end.
+
+(* ---- the master starts refusing the KILL calls for the tasks [ids] *)
+Definition refuse_tasks (ids : list tid) (r : roster) : roster :=
+  map (fun t => if mem_tid (t_id t) ids && N.eqb (t_kill t) 0 then set_kill 1 t else t) r.
 
 (* ---- a transition command for environment [e] addressed to [targets]: the targets that
    acknowledge go to [dst]; those listed in [refuse] answer with an error and keep their state.
@@ -127,7 +164,7 @@ Definition recon_blanks : bool :=
   existsb (fun p => N.eqb (fst p) 3 && negb (snd p)) uts_running_writes.
 Definition recon_task (t : task) : task :=
   if t_active t && t_idok t
-  then mkTask (t_id t) (t_owner t) true (t_state t) (negb recon_blanks)
+  then mkTask (t_id t) (t_owner t) true (t_state t) (negb recon_blanks) (t_kill t) (t_ch t)
   else t.
 Definition recon_tasks (r : roster) : roster := map recon_task r.
 
